@@ -4,6 +4,7 @@
   `topX : Sess → List String → Option (Sess × String)`; add them to the lists below.
 -/
 import Honeycomb.Model.Session
+import Honeycomb.Model.SessionIO
 import Honeycomb.Model.SessionGrid
 import Honeycomb.Model.Session3
 
@@ -18,7 +19,7 @@ def firstSome {α β γ : Type} (fs : List (α → β → Option γ)) (a : α) (
 
 def allHooks : Hooks where
   txOp := firstSome [txOp3]
-  top := firstSome [top3, topGrid]
+  top := firstSome [top3, topGrid, topIO]
 
 def stepAll (s : Sess) (line : String) : Sess × String := step allHooks s line
 
